@@ -62,7 +62,8 @@ func specNib(e *mulTable64Entry, w T) T {
 //@   opaque
 //@   forall c T, w T
 //@   ensures specLookup(&mulTable[c], w) == specGfmul(c, w)
-//@   use tablesMulRowW(c)
+//@   use tablesMulRowW(c, w & 0xff)
+//@   use tablesMulRowW(c, w >> 8)
 //@   use mulSplitWord(c, w)
 
 //@ lemma tablesLookupRow
